@@ -54,6 +54,7 @@ func init() {
 			ruleC15ScanFilter(c)
 			ruleProtocol(c, "C15.PROTOCOL")
 			ruleDeleteMembership(c, "C15.DELETEMEMBER")
+			ruleChildCreateAsksParent(c, "C15.PARENTROW")
 			ruleChildUpdateHandled(c, "C15.CHILDUPDATE")
 			ruleNeverNilCtor(c, "C15.NEWBUCKET")
 			ruleEntityBucketDescent(c, "C15.ENTITYBUCKET")
